@@ -902,6 +902,8 @@ async def run_level_d(env, rep, aiocoap):
             rep.count("d:state-change-during-fetch")
         if st and st[0] == ["RC"]:
             rep.count("d:response-cancelled-before-first")
+        elif res["gave_up"]:
+            rep.count("d:response-cancelled-during-first-body")
         if sc.get("cancel_at") is not None and ("item", 69, sc["cancel_at"]) in res["seen"]:
             rep.count("d:cancel-in-callback:hit")
         v, key = c07_bw.oracle(sc, res)
@@ -952,7 +954,7 @@ def run(env, rep):
             "d:block-reply=etag", "d:block-reply=short", "d:block-reply=wrongnum", "d:block-reply=err",
             "d:block-reply=errb2", "d:block-reply=noblock2", "d:block-reply=neterr",
             "d:notification-overtakes-fetch", "d:state-change-during-fetch", "d:final=non-2.xx-with-observe",
-            "d:response-cancelled-before-first", "d:cancel-in-callback:hit", "d:consumer=iter:busy",
+            "d:response-cancelled-before-first", "d:response-cancelled-during-first-body", "d:cancel-in-callback:hit", "d:consumer=iter:busy",
             "b:response-cancelled-before-first:consumer", "b:non-2.xx-with-observe",
             "b:cancel-before-first", "b:consumer=busy", "b:end=NotObservable", "b:end=ObservationCancelled", "b:end=T2", "b:end=T3",
             "b:rst-sent", "b:ack-sent", "b:event=R:CON", "b:event=R:NON", "b:callbacks"]
